@@ -2,12 +2,12 @@ SPECIFICATION Spec
 CONSTANTS
  Small = TRUE
  Msgs <- MCMsgs
- RL = 0
- MaxLoss = 2
+ RL = 1
+ MaxLoss = 1
  MaxT3 = 2
- SkipGapAcked = TRUE
- Depth = 99
-INVARIANTS TypeOK NoReliableSkippedP
-
+ SkipGapAcked = FALSE
+ Depth = 10
+INVARIANTS TypeOK 
+CONSTRAINT EmitCut
 VIEW View
 CHECK_DEADLOCK FALSE
